@@ -7,4 +7,4 @@ for n in $names; do
   python3 tools/seeded.py confirm "$n" | cut -c1-200
   python3 tools/seeded.py detect --scratch "$n"
 done
-git -C /repo worktree remove --force /tmp/$w
+if [ -n "$names" ]; then git -C /repo worktree remove --force /tmp/$w; else echo "nothing collected from $w (name clash?) - worktree kept"; fi
